@@ -104,6 +104,86 @@ def _body_lists(node):
     return [x for b in _blocks(node) for x in b] if node is not None else []
 
 
+FLOW_SCRIPTS = {
+    # every branch runs within two passes of the main loop (x toggles), so CPython observes every assignment
+    "scalars": "a = 3\nb = 1.5\nc = True\nd = 'text'\nwhile True:\n    e = a + 1\n    f = b * 2\n    g = a > 2\n    h = d + '!'\n    i = a * b\n",
+    "lists": "xs = [1, 2]\nys = [1.5, 2.5]\nwhile True:\n    v = xs[0]\n    w = ys[1]\n    n = len(xs)\n",
+    "specialised-by-call-site": "def scale(v, k):\n    t = v\n    return t * k\nwhile True:\n    a = scale(2, 3)\n    b = scale(1.5, 2)\n    c = scale(2, 0.5)\n",
+    "specialised-string": "def twice(v):\n    return v + v\nwhile True:\n    a = twice(2)\n    b = twice('ab')\n    c = twice(0.25)\n",
+    "hoist-if-else-float": "x = 0\nwhile True:\n    if x > 1:\n        best = 1.5\n    else:\n        best = 2.5\n    y = best\n    x = x + 2\n",
+    "hoist-else-only-float": "x = 0\nwhile True:\n    if x > 1:\n        x = 0\n    elif x > 5:\n        x = 1\n    else:\n        level = 0.5\n        name = 'low'\n    x = x + 2\n",
+    "hoist-else-only-at-top-level": "x = 0\nif x > 1:\n    x = 5\nelse:\n    ratio = 0.25\n    tag = 'r'\nwhile True:\n    x = x + 1\n",
+    "hoist-while-float": "x = 0\nwhile True:\n    x = 0\n    while x < 3:\n        acc = 0.5\n        word = 'w'\n        x = x + 1\n    z = acc\n",
+    "hoist-for-float": "while True:\n    for i in range(3):\n        last = i * 0.5\n        label = 'n'\n    z = last\n",
+    "hoist-try": "d = 0\nwhile True:\n    try:\n        q = 1.5\n        s = 'ok'\n    except Exception:\n        q = 0.5\n        s = 'bad'\n    z = q\n",
+    "function-hoist-int-then-float": "def pick(a, b):\n    if a > b:\n        best = a\n    else:\n        best = b\n    return best\nwhile True:\n    n = pick(1, 2)\n    n = pick(2, 1)\n    m = pick(1.5, 2.5)\n    m = pick(2.5, 1.5)\n",
+    "function-hoist-float-then-int": "def pick(a, b):\n    if a > b:\n        best = a\n    else:\n        best = b\n    return best\nwhile True:\n    m = pick(1.5, 2.5)\n    m = pick(2.5, 1.5)\n    n = pick(1, 2)\n    n = pick(2, 1)\n",
+    "same-local-name-in-two-helpers": "x = 0\nif x > 1:\n    top = 1\nelse:\n    top = 2\ndef first(a):\n    if a > 0:\n        r = 1\n    else:\n        r = 2\n    return r\ndef second(a):\n    if a > 0:\n        r = 0.5\n    else:\n        r = 1.5\n    return r\nwhile True:\n    p = first(1) + first(0)\n    q = second(1) + second(0)\n",
+    "function-else-only": "def grade(v):\n    if v > 10:\n        v = 10\n    else:\n        note = 'small'\n        part = 0.5\n        return part\n    return 1.5\nwhile True:\n    a = grade(3)\n    b = grade(30)\n",
+    "nested-calls": "def inner(w):\n    return w * 2\ndef outer(v):\n    return inner(v)\nwhile True:\n    a = outer(1.5)\n    b = outer(2)\n",
+    "tuple-types": "while True:\n    a, b = 1, 2.5\n    c, d = 'x', True\n    a, b = a + 1, b * 2\n",
+    "same-local-name-branch-then-loop": "def first(a):\n    if a > 0:\n        level = 1\n    else:\n        level = 2\n    return level\ndef ramp(n):\n    for i in range(n):\n        level = i * 0.5\n    return level\ndef climb(n):\n    k = 0\n    while k < n:\n        level = 'up'\n        k = k + 1\n    return level\nwhile True:\n    p = first(1) + first(0)\n    q = ramp(3)\n    s = climb(2)\n",
+    "annotated-parameter-other-argument": "def dim(level: int):\n    return level * 2\ndef tag(v: float, n: int):\n    w = v\n    return w + n\nwhile True:\n    a = dim(2)\n    b = dim(0.75)\n    c = tag(1, 2)\n    d = tag(0.5, 2)\n",
+    "parameter-reassigned": "def widen(v):\n    w = v\n    w = w + 1\n    return w\nwhile True:\n    a = widen(2)\n    b = widen(2.5)\n",
+}
+
+
+def rule_flow_scripts(r, pm):
+    """declared types decided by evaluation: the statement parser is partially evaluated on a corpus of scripts; every C++
+    type it declares (globals, locals, hoisted declarations, parameters and return types of each specialised function
+    variant) must be the type that holds the values CPython's own execution of the script gives the name (typing oracle:
+    sa/pytypes.py, every branch runs within two passes)"""
+    from .. import pe, pytypes
+    pf = pm.func("parse")
+
+    def decls(nodes, acc):
+        for n_ in nodes:
+            cn = type(n_).__name__
+            if cn == "VarDecl" and not str(n_.name).startswith("__tmp"):
+                acc.setdefault(n_.name, set()).add(n_.c_type)
+            if cn == "ForRangeLoop":
+                acc.setdefault(n_.var_name, set()).add("int")      # emitted as `for (int i = 0; ...)`
+            for f_ in ("body", "else_body", "try_body", "branches", "handlers"):
+                sub = getattr(n_, f_, None)
+                if isinstance(sub, list):
+                    decls(sub, acc)
+        return acc
+
+    for label, src in FLOW_SCRIPTS.items():
+        try:
+            _it, out = pe.parse_source(src)
+        except dl.Unsupported as e:
+            raise AnalysisError(f"parse() left the evaluable subset on typing script `{label}`: {e}")
+        if out.kind != "return":
+            r.fail(f"types[{label}]/accepted", (pm, pf), f"the typing script `{label}` is rejected with {out.value}")
+            continue
+        prog = out.value
+        oracle = pytypes.trace(src)
+        got_mod = decls(list(prog.global_decls) + list(prog.setup_body) + list(prog.loop_body), {})
+        for name, tset in sorted(oracle.get("<module>", {"vars": {}})["vars"].items()):
+            want = pytypes.var_ctype(tset)
+            got = got_mod.get(name)
+            r.check(got == {want}, f"types[{label}]/{name}", (pm, pf), f"script `{label}`: `{name}` holds {want} values in Python; the transpiler declares it {sorted(got) if got else 'nowhere'}", sample=f"{label}: {name} -> {want}")
+        for key, sc in sorted((k, v) for k, v in oracle.items() if k != "<module>"):
+            fname, sig = key
+            variants = [f for f in prog.functions if f.name == fname and tuple(t for _n, t in f.params) == tuple(sig)]
+            if len(variants) != 1:
+                have = [tuple(t for _n, t in f.params) for f in prog.functions if f.name == fname]
+                r.fail(f"types[{label}]/{fname}{list(sig)}/variant", (pm, pf), f"script `{label}`: `{fname}` is called with {list(sig)}; the transpiler emits variants {have}: the call would convert its arguments")
+                continue
+            f = variants[0]
+            want_ret = pytypes.ctype_of(sc["returns"]) if sc["returns"] else "void"
+            r.check(f.return_type == want_ret, f"types[{label}]/{fname}{list(sig)}/return", (pm, pf), f"script `{label}`: `{fname}{list(sig)}` returns {want_ret} values in Python; declared return type {f.return_type}", sample=f"{label}: {fname}{list(sig)} -> {want_ret}")
+            got_fn = decls(list(f.body), {})
+            params = {n for n, _t in f.params}
+            for name, tset in sorted(sc["vars"].items()):
+                if name in params:
+                    continue
+                want = pytypes.var_ctype(tset)
+                got = got_fn.get(name)
+                r.check(got == {want}, f"types[{label}]/{fname}{list(sig)}/{name}", (pm, pf), f"script `{label}`: in `{fname}{list(sig)}` the local `{name}` holds {want} values in Python; the transpiler declares it {sorted(got) if got else 'nowhere'}", sample=f"{label}: {fname}{list(sig)}.{name} -> {want}")
+
+
 def run(cx):
     pm = mod(PARSER)
     cx.consulted(pm)
@@ -261,131 +341,63 @@ def run(cx):
         r.check(d.kind == "return" and d.value == f"__redu_list<{inner}>()", f"_default_value_for_type[list[{lab}]]", (pm, dv), f"-> {d!r}")
 
     # ---- C02-FLOW ----------------------------------------------------------------------------
-    r = cx.rule("C02-FLOW", "every declared C++ type comes from _cpp_type(<inferred label>); hoisted declarations take the label the name has in the scope that assigned it; a call-site signature decides a specialised parameter's type", floor=10)
-    for q, fn in pm.funcs.items():
-        loc = Locals(fn)
-        for c in walk_local(fn, include_self=False):
-            if isinstance(c, ast.Call) and call_name(c) == "VarDecl":
-                ct = None
-                for k in c.keywords:
-                    if k.arg == "c_type":
-                        ct = k.value
-                if ct is None and len(c.args) > 1:
-                    ct = c.args[1]
-                if ct is None:
-                    continue
-                srcs = [ct]
-                if isinstance(ct, ast.Name):
-                    srcs = [d for d in loc.defs.get(ct.id, []) if isinstance(d, ast.expr)] or [ct]
-                ok = all(isinstance(s, ast.Call) and (call_name(s) == "_cpp_type" or (isinstance(s.func, ast.Attribute) and s.func.attr == "get" and len(s.args) == 2 and isinstance(s.args[1], ast.Call) and call_name(s.args[1]) == "_cpp_type")) for s in srcs)
-                r.check(ok, f"{q}/VarDecl.c_type<-_cpp_type", (pm, c), f"`{stmt_key(c)}`: the declared type does not come from _cpp_type(<label>)", sample=f"{q}: VarDecl c_type <- {', '.join(norm(s)[:40] for s in srcs)}")
-    pb = pm.func("_promote_branch_decls")
-    rec = pm.funcs.get("_promote_branch_decls.record")
-    if rec is None:
-        raise AnalysisError("_promote_branch_decls.record vanished")
-    st = [n for n in walk_local(rec) if isinstance(n, ast.Assign) and norm(n.targets[0]) == "inferred[name]"]
-    r.check(len(st) == 1 and "child_ctx.get('var_types', {}).get(name" in norm(st[0].value), "_promote_branch_decls/type-from-child-scope", (pm, rec), "a hoisted variable's label must be read from the branch scope that assigned it")
-    # ... and at every call the scope handed to record() is the scope whose new names are being recorded (the else arm has
-    # its own scope): the scope is a parameter of record(), never a free variable left over from an enclosing loop
-    rec_params = [a.arg for a in rec.args.args]
-    src_ctx = None
-    if st and isinstance(st[0].value, ast.Call):
-        base_ = st[0].value
-        while isinstance(base_, ast.Call) and isinstance(base_.func, ast.Attribute):
-            base_ = base_.func.value
-        src_ctx = base_.id if isinstance(base_, ast.Name) else None
-    r.check(src_ctx is not None and src_ctx in rec_params, "_promote_branch_decls/record-takes-the-assigning-scope-as-parameter", (pm, rec), f"record() reads the label from `{src_ctx}`, which is not one of its parameters {rec_params}: it would silently use whatever scope an enclosing loop last bound")
-    if src_ctx in rec_params:
-        pos = rec_params.index(src_ctx)
-        for c in walk_local(pb):
-            if isinstance(c, ast.Call) and call_name(c) == "record" and pm.enclosing_func(c) is pb:
-                loop_ = next((a for a in pm.ancestors(c) if isinstance(a, ast.For)), None)
-                names_src = None
-                if loop_ is not None:
-                    it_ = loop_.iter.args[0] if isinstance(loop_.iter, ast.Call) and call_name(loop_.iter) == "sorted" and loop_.iter.args else loop_.iter
-                    if isinstance(it_, ast.Name):
-                        # closest preceding assignment of the iterated name
-                        prev = [x for x in walk_local(pb) if isinstance(x, ast.Assign) and norm(x.targets[0]) == it_.id and (x.lineno, x.col_offset) < (c.lineno, c.col_offset)]
-                        if prev:
-                            last = max(prev, key=lambda x: (x.lineno, x.col_offset))
-                            names_ = {n_.id for n_ in ast.walk(last.value) if isinstance(n_, ast.Name)}
-                            names_src = names_
-                passed = norm(c.args[pos]) if len(c.args) > pos else None
-                r.check(passed is not None and names_src is not None and passed in names_src, "_promote_branch_decls/record-called-with-the-scope-of-its-names", (pm, c), f"`{stmt_key(c)}`: the names come from {sorted(names_src or [])} but the scope passed is {passed}")
-    psl = pm.func("_parse_simple_lines")
-    hoist = [n for n in walk_local(psl) if isinstance(n, ast.Assign) and norm(n.targets[0]) == "var_types[name]" and "child_types.get(name" in norm(n.value)]
-    r.check(len(hoist) >= 2, "_parse_simple_lines/loop-hoist-type-from-child-scope", (pm, psl), "while/for hoisting must copy the label from the loop body's scope")
-    # the promotion cache must be scope-local
-    pf = pm.func("parse")
-    ctx_lit = Locals(pf).defs.get("ctx", [None])[0]
-    keys = {lit.try_ev(k) for k in ctx_lit.keys} if isinstance(ctx_lit, ast.Dict) else set()
-    r.check("_promotion_cpp_types" not in keys, "parse/promotion-cache-not-in-root-ctx", (pm, pf), "the cache of hoisted C++ types is created in the root context: every function/branch scope (a shallow dict(ctx) copy) would share it and a name hoisted in one scope would keep its stale type in another")
-    for q, fn in pm.funcs.items():
-        for n in walk_local(fn, include_self=False):
-            if isinstance(n, ast.Assign) and isinstance(n.targets[0], ast.Subscript) and lit.try_ev(n.targets[0].slice) == "_promotion_cpp_types":
-                r.fail(f"{q}/promotion-cache-assigned", (pm, n), "the promotion cache is installed into a context explicitly (it must be created lazily per scope)")
-    # the hoisted C++ type is (re)computed from the label chosen *now*: label and cache entry are overwritten together
-    order_loops = [n for n in walk_local(pb) if isinstance(n, ast.For) and norm(n.iter) == "order" and pm.enclosing_func(n) is pb]
-    okw = False
-    if order_loops:
-        lp = order_loops[-1]
-        lab = [n for n in lp.body if isinstance(n, ast.Assign) and norm(n.targets[0]) == "parent_types[name]"]
-        cache = [n for n in lp.body if isinstance(n, ast.Assign) and isinstance(n.targets[0], ast.Subscript) and norm(n.targets[0].slice) == "name" and isinstance(n.value, ast.Call) and call_name(n.value) == "_cpp_type"]
-        okw = len(lab) == 1 and len(cache) == 1 and norm(cache[0].value.args[0]) == norm(lab[0].value)
-        lazy = [n for n in walk_local(lp) if isinstance(n, ast.Call) and isinstance(n.func, ast.Attribute) and n.func.attr in ("setdefault", "get") and any(isinstance(a, ast.Call) and call_name(a) == "_cpp_type" for a in n.args)]
-        okw = okw and not lazy
-    r.check(okw, "_promote_branch_decls/cache-overwritten-with-current-label", (pm, pb), "for every hoisted name the scope's label (parent_types[name]) and the cached C++ type must be overwritten together from the same label; a kept/conditional cache entry (setdefault) leaves the type of an earlier hoist of the same name - `float pick(float, float)` would declare `int best`")
-    rule_hoist_order(r, pm)
-    # parameter specialisation
-    pfn = pm.func("_parse_function")
-    assigns = [n for n in walk_local(pfn) if isinstance(n, ast.Assign) and norm(n.targets[0]) == "param_type_label"]
-    seen_forced = False
-    for n in assigns:
-        cs = lexical_conds(pm, n)
-        if norm(n.value) == "forced_signature[idx]":
-            seen_forced = True
-            r.check(("forced_signature is not None", True) in cs and not any(t != "forced_signature is not None" and "forced_signature" not in t for t, _v in cs), "_parse_function/call-site-signature-decides-parameter-type", (pm, n), f"the call-site label is only used under {sorted(cs)}")
-        else:
-            r.check(("forced_signature is not None", False) in cs or ("forced_signature is None", True) in cs, "_parse_function/call-site-signature-decides-parameter-type", (pm, n), f"`{stmt_key(n)}` can override the label requested by the call site (conditions {sorted(cs)}): a float argument would be passed to a parameter declared with another type")
-    r.check(seen_forced, "_parse_function/forced-signature-path", (pm, pfn), "the specialisation path (forced_signature) was not found")
-    stores = [n for n in walk_local(pfn) if isinstance(n, ast.Assign) and norm(n.targets[0]) == "child_ctx['var_types'][arg.arg]"]
-    r.check(len(stores) == 1 and norm(stores[0].value) == "param_type_label", "_parse_function/param-type-stored", (pm, pfn), "parameter label store changed")
+    r = cx.rule("C02-FLOW", "every C++ type the parser declares - globals, locals, declarations hoisted out of if/elif/else, while, for and try blocks, parameters and return types of each call-site specialisation - holds the values CPython gives the name when it executes the same script (script corpus partially evaluated; CPython under settrace is the typing oracle)", floor=80, exhaustive=True)
+    rule_flow_scripts(r, pm)
 
     # ---- C02-REDECL --------------------------------------------------------------------------
-    r = cx.rule("C02-REDECL", "re-assigning an already declared scalar with a value of another label is rejected or widens the declaration", floor=1)
+    r = cx.rule("C02-REDECL", "a scalar that receives values of several labels - re-assigned later, or first assigned in different branches of one if/elif/else - is declared with a type that holds them all, or the script is rejected (scripts for every ordered combination of labels partially evaluated; CPython is the typing oracle)", floor=20, exhaustive=True)
+    from .. import pe as _pe, pytypes
+    pf = pm.func("parse")
     ha = pm.func("_handle_assignment_ast")
-    compared = False
-    for n in walk_local(ha):
-        if isinstance(n, ast.Compare) and {"existing_type", "inferred_type"} <= {x.id for x in ast.walk(n) if isinstance(x, ast.Name)}:
-            # only the list path compares today
-            if not any(isinstance(a, ast.If) and "_is_list_type(existing_type" in norm(a.test) for a in pm.ancestors(n)):
-                compared = True
-    r.check(compared, "_handle_assignment_ast/scalar-retype-unchecked", (pm, ha), "the first assignment fixes a scalar's C++ type and later assignments of another label are not compared with it: `x = 1` then `x = 1.5` stores 1.5 in `int x`")
-    # promotion merge across branches: _promote_branch_decls evaluated on two/three branch scopes that assign the same new
-    # name with every ordered combination of labels; the hoisted label must hold every branch's value
-    for combo in itertools.chain(itertools.permutations(NUM + ["String"], 2), itertools.permutations(NUM, 3)):
-        j = join(*combo)
-        if j is None:
-            continue
-        for with_else in (False, True):
-            scopes = [({"var_types": {"x": lab_}, "var_declared": {"x"}, "_base_declared": set()}, []) for lab_ in combo]
-            parent = {}
-            try:
-                out = it().call(pb, [scopes[:-1], scopes[-1], parent, "loop", 1] if with_else else [scopes, None, parent, "loop", 1])
-            except dl.Unsupported as e:
-                raise AnalysisError(f"_promote_branch_decls left the evaluable subset: {e}")
-            got = parent.get("var_types", {}).get("x") if out.kind == "return" else None
-            cpp_got = parent.get("_promotion_cpp_types", {}).get("x")
-            ok = out.kind == "raise" or (got is not None and geq(got, j))
-            if combo[0] == j or (RANK.get(combo[0], 9) >= max(RANK.get(c_, 9) for c_ in combo)):
-                key = f"_promote_branch_decls/hoist-label[{'-then-'.join(combo)}]"
-            else:
-                key = "_promote_branch_decls/first-branch-type-wins"
-            r.check(ok, key, (pm, rec), f"a name assigned {' / '.join(combo)} in successive branches{' (last one the else)' if with_else else ''} is hoisted as {got!r} ({cpp_got}); it must hold {j}")
-            if ok and out.kind == "return" and got is not None:
-                want_cpp = it().call(cpp, [got]).value
-                r.check(cpp_got == want_cpp, f"_promote_branch_decls/hoist-cpp-type[{'-then-'.join(combo)}]", (pm, pb), f"label {got} but cached C++ type {cpp_got}")
+    LITS = {"bool": "True", "int": "3", "float": "1.5", "String": "'s'"}
+    CPP = {"bool": "bool", "int": "int", "float": "float", "String": "String"}
 
+    def declared(prog, name):
+        acc = set()
+
+        def visit(nodes):
+            for n_ in nodes:
+                if type(n_).__name__ == "VarDecl" and n_.name == name:
+                    acc.add(n_.c_type)
+                for f_ in ("body", "else_body", "try_body", "branches", "handlers"):
+                    sub = getattr(n_, f_, None)
+                    if isinstance(sub, list):
+                        visit(sub)
+        visit(list(prog.global_decls) + list(prog.setup_body) + list(prog.loop_body))
+        return acc
+
+    def decide(label, src, combo, known_key):
+        j = join(*combo)
+        try:
+            _it, out = _pe.parse_source(src)
+        except dl.Unsupported as e:
+            raise AnalysisError(f"parse() left the evaluable subset on `{label}`: {e}")
+        if out.kind != "return":
+            r.ok(f"{label}: rejected")
+            return
+        want = pytypes.var_ctype(pytypes.trace(src, passes=3)["<module>"]["vars"]["y"])
+        got = declared(out.value, "y")
+        ok = got == {want}
+        first_wins = not ok and got == {CPP[combo[0]]} and combo[0] != j
+        r.check(ok, known_key if first_wins else f"{label}/declared-type-holds-every-value", (pm, ha), f"`y` receives {' then '.join(combo)} values ({label}); Python's values need {want}; declared {sorted(got)}", sample=f"{label}: {want}")
+
+    for combo in itertools.permutations(NUM, 2):
+        src = f"y = {LITS[combo[0]]}\nwhile True:\n    y = {LITS[combo[1]]}\n"
+        decide(f"retype[{'-then-'.join(combo)}]", src, combo, "_handle_assignment_ast/scalar-retype-unchecked")
+    for combo in itertools.chain(itertools.permutations(NUM, 2), itertools.permutations(NUM, 3), [("String", "String"), ("float", "float")]):
+        for with_else in (False, True):
+            heads = ["if x > 3:", "elif x > 1:", "elif x > -1:"]
+            lines = ["x = 0", "while True:"]
+            for i_, lab_ in enumerate(combo):
+                head = "else:" if with_else and i_ == len(combo) - 1 else heads[i_]
+                lines += [f"    {head}", f"        y = {LITS[lab_]}"]
+            lines += ["    x = x + 2" if len(combo) == 2 else "    x = x + 2"]
+            src = "\n".join(lines) + "\n"
+            # every branch must run for the oracle: three passes (x = 0, 2, 4) reach branch 3, 2, 1
+            tr_ = pytypes.trace(src, passes=3)["<module>"]["vars"].get("y", set())
+            if len(tr_) != len(set(combo)):
+                raise AnalysisError(f"typing oracle did not reach every branch of hoist[{'-'.join(combo)}]")
+            decide(f"hoist[{'-then-'.join(combo)}{'+else' if with_else else ''}]", src, combo, "_promote_branch_decls/first-branch-type-wins")
 
     from .. import pe, cxx, l2
     from . import c09
